@@ -266,6 +266,14 @@ package control
 //@   ensures !old(hasPacked(c)) ==> !hasPacked(result)
 //@   ensures !result.refreshing.Load()
 //@   ensures old(dl(c)) != 0 ==> wfPacked(result)
+// C10 (the kernel table mirrors the cache across a reload): the clone keeps the entry's owner key - the replay
+// registers its addresses under it - and the same records (shared, immutable), keeps the LRU stamp, and starts with
+// the per-generation sync bookkeeping cleared so that the new generation writes the addresses again
+//@   ensures result.RouteOwnerKey == old(c.RouteOwnerKey)
+//@   ensures result.Answer.$base == old(c.Answer.$base) && result.Answer.$off == old(c.Answer.$off) && len(result.Answer) == old(len(c.Answer))
+//@   ensures result.NS.$base == old(c.NS.$base) && result.NS.$off == old(c.NS.$off) && len(result.NS) == old(len(c.NS))
+//@   ensures result.Extra.$base == old(c.Extra.$base) && result.Extra.$off == old(c.Extra.$off) && len(result.Extra) == old(len(c.Extra))
+//@   ensures result.lastAccessNano.Load() == old(c.lastAccessNano.Load()) && result.lastRouteSyncNano.Load() == 0 && result.lastBpfDataHash.Load() == 0
 
 // C08 (LRU eviction): binary min-heap over lastAccess.
 //   heapAt(e, k, n): node k is not larger than its children inside the first n slots
@@ -392,6 +400,8 @@ package control
 //@   at call orDomainRoutingBitmap#2 assert has(snapshot.ips, key)
 //@   loop 1
 //@     invariant !contributes() && len(t.ips[key].owners) == 1 && has(t.ips[key].owners, ownerKey) ==> !present
+// ... and EVERY owner of the address is visited (the walk over the owners ends only when they are exhausted)
+//@     exit $exhausted
 
 // Connectivity slot key: byte-identical to the kernel's
 //   key = ((__u32)outbound * 6) + (domain_idx * 2) + ip_idx;      (control/kern/tproxy.c, wan_outbound_is_alive)
@@ -617,8 +627,14 @@ package control
 //@   modifies *
 //@   at call Cond).Wait#1 assume-after t.entries != nil && nonnilvals(t.entries)
 //@   at call builtin:delete#1 assert has(t.entries, key) && t.entries[key] == entry && entry != nil && !entry.deleting && entry.refs <= 1
+// (without a wait for a deletion in flight) one of several owners leaves: the entry stays, with one reference less;
+// the last owner leaves: the entry goes; an unknown key: nothing changes
+//@   ensures calls("Cond).Wait") == 0 && old(has(t.entries, key)) && old(t.entries[key].refs) > 1 ==> has(t.entries, key) && t.entries[key] == old(t.entries[key]) && t.entries[key].refs == old(t.entries[key].refs) - 1
+//@   ensures calls("Cond).Wait") == 0 && old(has(t.entries, key)) && old(t.entries[key].refs) <= 1 ==> !has(t.entries, key)
+//@   ensures calls("Cond).Wait") == 0 && !old(has(t.entries, key)) ==> !has(t.entries, key) && len(t.entries) == old(len(t.entries))
 //@   loop 1
 //@     invariant t.entries != nil && nonnilvals(t.entries)
+//@     invariant calls("Cond).Wait") == 0 ==> has(t.entries, key) == old(has(t.entries, key)) && len(t.entries) == old(len(t.entries)) && (has(t.entries, key) ==> t.entries[key] == old(t.entries[key]) && t.entries[key].refs == old(t.entries[key].refs))
 
 // per-flow overflow FIFO (under enqueueMu): pop returns the oldest spilled task and keeps all the others,
 // in order; nothing is dropped by the capacity housekeeping
@@ -776,6 +792,37 @@ package control
 //@   at call onBaseKeySideEffectsEvicted#1 assert a1 == dnsCacheBaseKey(cacheKey) && a2 == cache
 //@   ensures calls("forgetDnsKnowledge") == calls("invokeCacheDeleteCallback") && calls("invokeCacheDeleteCallback") == calls("onBaseKeySideEffectsEvicted") && calls("onBaseKeySideEffectsEvicted") <= 1
 
+// the shared store of a controller (a missing store is a construction bug: panic, assumed unreachable)
+//@ func (*DnsController).requireStore
+//@   anchorsonly
+//@   ensures c == nil ==> result == nil
+//@   ensures c != nil ==> result == c.dnsControllerStore && result != nil
+
+// removal of a whole name (all scopes, e.g. after the name was routed to reject): every entry of the family that
+// really was removed gives its addresses back through the delete callback - under its OWN cache key - the walk
+// always continues to the next entry, and knowledge and the base key's side effects are settled once afterwards.
+//@ func (*DnsController).RemoveDnsRespCacheFamily$1
+//@   anchorsonly
+//@   nonilcheck
+//@   dyncalls noeffect
+//@   modifies *
+//@   ghostfn removed() bool
+//@   at call dnsCacheBaseKey#1 assert a0 == unbox(key, "string")
+//@   at call CompareAndDelete#1 assume-after result == removed()
+//@   at call invokeCacheDeleteCallback#1 assert a1 == cacheKey && a2 == cache && removed() && cacheKey == unbox(key, "string")
+//@   ensures result
+//@   ensures calls("CompareAndDelete") == 1 && removed() ==> calls("invokeCacheDeleteCallback") == 1
+//@ func (*DnsController).RemoveDnsRespCacheFamily
+//@   anchorsonly
+//@   nonilcheck
+//@   dyncalls noeffect
+//@   modifies *
+//@   at call syncDnsKnowledge#1 assert a1 == baseKey && calls("Range") == 1
+//@   at call onBaseKeySideEffectsEvicted#1 assert a1 == baseKey && calls("syncDnsKnowledge") == 1
+//@   ensures baseKey != "" ==> calls("Range") == 1
+//@   ensures baseKey != "" ==> calls("syncDnsKnowledge") == 1
+//@   ensures baseKey != "" ==> calls("onBaseKeySideEffectsEvicted") == 1
+
 //@ func (*DnsController).onBaseKeySideEffectsEvicted
 //@   anchorsonly
 //@   dyncalls noeffect
@@ -874,6 +921,33 @@ package control
 //@   modifies *
 //@   at call BatchRemoveDomainRouting#1 assert a1 == cache
 //@   ensures calls("BatchRemoveDomainRouting") == 1
+
+// C18/C08 (what a new cache entry is made of): the entry built for the controller carries the records and BOTH
+// deadlines it was given, each in its own field - the serving deadline (fixed_domain_ttl applied) and the records'
+// ORIGINAL deadline (which bounds how long the name counts as resolved through dae) - and the domain bitmap of
+// exactly this name.
+//@ func (*ControlPlane).dnsControllerOption$3
+//@   anchorsonly
+//@   nonilcheck
+//@   dyncalls noeffect
+//@   modifies *
+//@   at call MatchDomainBitmap#1 assert a1 == fqdn
+//@   ensures err == nil && cache != nil && fresh(cache)
+//@   ensures cache.Deadline == deadline && cache.OriginalDeadline == originalDeadline
+//@   ensures cache.Answer.$base == answers.$base && cache.Answer.$off == answers.$off && len(cache.Answer) == len(answers)
+//@   ensures cache.NS.$base == ns.$base && len(cache.NS) == len(ns) && cache.Extra.$base == extra.$base && len(cache.Extra) == len(extra)
+
+// C18 (a name is looked up at every bootstrap resolver before it is given up): each configured resolver is asked,
+// in order, for exactly this host/network, until one returns an address; an empty answer or an error from one
+// resolver never ends the walk.
+//@ func (*ControlPlane).resolveIp46WithBootstrapResolvers
+//@   anchorsonly
+//@   nonilcheck
+//@   dyncalls noeffect
+//@   modifies *
+//@   at call dyn:resolve#1 assert a2 == $range[$idx] && $range.$base == c.bootstrapResolvers.$base && a3 == host && a4 == network && a5 == race
+//@   loop 1
+//@     exit $idx == len($range)
 
 // C13 (shared UDP connection-state tracker): every acquire of an existing entry counts one more holder and
 // hands out that entry's tracker; a release by a holder counts one less and drops the entry at zero - so a
@@ -1205,3 +1279,7 @@ package control
 //@   modifies *
 //@   at call bpfTuplesKeyFromAddrPorts#1 assert a0 == src && a1 == dst && a2 == 17
 //@   at call bpfTuplesKeyFromAddrPorts#2 assert a0 == dst && a1 == src && a2 == 17
+// C13 (tuples are never tracked after close): an endpoint whose tracked state was released (closed) retains nothing
+// more - no tuple is recorded and the owner is not asked to retain any
+//@   at call RetainUdpConnStateTuples#1 assert !ue.udpConnStateClosed && ue.udpConnStateOwner != nil && len(newKeys) > 0
+//@   ensures old(ue != nil && ue.udpConnStateClosed) ==> nocalls("RetainUdpConnStateTuples") && ue.udpConnStateTuples == old(ue.udpConnStateTuples) && len(ue.udpConnStateTuples) == old(len(ue.udpConnStateTuples))
